@@ -206,12 +206,35 @@ def _d1_d2(chk, fb):
                     continue
                 # the same derivation must appear in fireParameterChanged
                 found = False
+                redo = []
                 for m in walk(f.body):
                     if n["k"] == "BinaryOperator" and m["k"] == "BinaryOperator" and m["op"] == "=" and render(kids(m)[0]) == tgt:
                         found = True
+                        redo.append(m)
                     if is_call(n) and is_call(m) and "obj" in m and _rname(f.obj(m)) + "." + m["callee"]["name"] == tgt and ({r[2] for r in e1.reads_in(m) if r[0] == "f"} & set(used)):
                         found = True
+                        redo.append(m)
+                # ... and whenever the cache it is derived from has been reloaded: every path from the reload to the rebuild passes
+                # a re-derivation (a guard shared by reload and re-derivation is fine, a guard on the re-derivation alone is not)
+                skipped = None
                 if found:
+                    rblocks = {cfg.stmt_block(m) for m in redo if cfg.stmt_block(m) is not None}
+                    for u in used:
+                        for a in assigned.get(u, []):
+                            if not any(is_call(x) and x["callee"]["name"] == "getParameterValue" for x in walk(a)):
+                                continue
+                            ab = cfg.stmt_block(a)
+                            if ab is None or ab in rblocks:
+                                continue
+                            okp, pth = e1.must_pass(cfg, rblocks | {b_ for b_ in cfg.blocks if cfg.is_throw_block(b_)}, start=ab)
+                            if not okp:
+                                skipped = (u, a, pth)
+                if found and skipped:
+                    chk.refuted("D2", f.key, "derived-refreshed:" + tgt, f.loc(redo[0]),
+                                "'%s' is derived from the cached parameter '%s', which fireParameterChanged reloads at line %s, but the re-derivation at line %s sits under a condition of its own: on the path %s the cache is new and '%s' is still the old one" % (
+                                    tgt, skipped[0], skipped[1].get("l"), redo[0].get("l"), skipped[2], tgt),
+                                witness={"history": "change the parameter behind '%s' on an object for which that condition is false (another namespace, another parameter in the notification)" % skipped[0], "blocks": skipped[2]})
+                elif found:
                     chk.proved("D2", f.key, "derived-refreshed:" + tgt, f.loc(), "'%s' (derived from %s in the constructor) is re-derived on notification" % (tgt, used))
                 else:
                     chk.refuted("D2", f.key, "derived-refreshed:" + tgt, f.loc(),
@@ -492,6 +515,111 @@ def _d8(chk, fb, files):
     chk.floor("D8", "classes with user copy constructor and operator=", n, 6)
 
 
+def _d9(chk, fb, files):
+    """running end-point pairs: a loop that carries a point x and the value v of a function G at that point from one interval to
+    the next (v2 = G(x2) computed in the body, then 'v = v2' and 'x = x2' moved together) uses differences v2 - v that telescope
+    only if v starts as G(x).  The definition of v that reaches the loop must be G applied to x (or to the expression x was
+    initialised with); a literal there is refuted, any other expression is not judged"""
+    n = 0
+    for f in fb.concrete_fns():
+        if f.body is None or not any(f.file.endswith(x) for x in files):
+            continue
+        for lp in [x for x in f.all_nodes() if x["k"] in ("ForStmt", "WhileStmt")]:
+            body = f.nodes.get(lp.get("body")) if isinstance(lp.get("body"), int) else None
+            stmts = [x for x in walk(lp)]
+            moves, evals = {}, {}
+            for x in stmts:
+                if x["k"] == "BinaryOperator" and x.get("op") == "=":
+                    l_, r_ = strip(kids(x)[0]), strip(kids(x)[1])
+                    if l_["k"] == "DeclRefExpr" and (l_.get("ty") or "").replace("const ", "") == "double":
+                        if r_["k"] == "DeclRefExpr" and (r_.get("ty") or "").replace("const ", "") == "double":
+                            moves[l_["decl"]["id"]] = (r_["decl"]["id"], x, l_["decl"]["name"], r_["decl"]["name"])
+                        elif is_call(r_) and len(f.args(r_)) == 1 and strip(f.args(r_)[0])["k"] == "DeclRefExpr":
+                            evals[l_["decl"]["id"]] = (r_, strip(f.args(r_)[0])["decl"]["id"])
+            for vid, (v2id, mv, vname, v2name) in moves.items():
+                if v2id not in evals:
+                    continue
+                G, x2id = evals[v2id]
+                xs = [xid for xid, (src, _, _, _) in moves.items() if src == x2id and xid != vid]
+                if len(xs) != 1:
+                    continue
+                xid = xs[0]
+                xname = moves[xid][2]
+                # the definition of v that reaches the loop: its declaration initialiser, or the last plain assignment before the loop
+                cfg = f.cfg
+                head = cfg.stmt_block(f.nodes[lp["cond"]]) if "cond" in lp and lp["cond"] in f.nodes else None
+                defs = []
+                for d in [y for y in f.all_nodes() if y["k"] == "DeclStmt"]:
+                    for dd in d["decls"]:
+                        if dd["id"] == vid and dd.get("init") is not None:
+                            defs.append((d, dd["init"]))
+                for y in f.all_nodes():
+                    if y["k"] == "BinaryOperator" and y.get("op") == "=" and strip(kids(y)[0])["k"] == "DeclRefExpr" and strip(kids(y)[0])["decl"]["id"] == vid and not f.contains(lp, y):
+                        if head is not None and cfg.stmt_block(y) is not None and cfg.dominates(cfg.stmt_block(y), head):
+                            defs.append((y, kids(y)[1]))
+                if not defs:
+                    continue
+                n += 1
+                dnode, init = defs[-1]
+                con = "running-pair:%s/%s" % (xname, vname)
+                xinit = None
+                for d in [y for y in f.all_nodes() if y["k"] == "DeclStmt"]:
+                    for dd in d["decls"]:
+                        if dd["id"] == xid and dd.get("init") is not None:
+                            xinit = render(dd["init"])
+                gname = G["callee"]["name"]
+                si = strip(init)
+                want = {render(G).replace(render(f.args(G)[0]), xname)}
+                if xinit:
+                    want.add(render(G).replace(render(f.args(G)[0]), xinit))
+                if render(si) in want:
+                    chk.proved("D9", f.key, con, f.loc(dnode), "%s starts as %s(%s), the value at the point %s starts from" % (vname, gname, xname, xname))
+                elif si["k"] in ("IntegerLiteral", "FloatingLiteral") or (si["k"] == "UnaryOperator" and strip(kids(si)[0])["k"] in ("IntegerLiteral", "FloatingLiteral")):
+                    chk.refuted("D9", f.key, con, f.loc(dnode),
+                                "the loop carries %s together with %s = %s(%s) from interval to interval and uses differences of successive values, but %s starts as the constant %s instead of %s(%s): the first difference is not the integral over the first interval" % (
+                                    xname, vname, gname, xname, vname, render(si), gname, xname),
+                                witness={"input": "a parent distribution whose %s at the lower end of the domain is not %s (e.g. a gamma with an offset)" % (gname, render(si))})
+                else:
+                    chk.unknown("D9", f.key, con, f.loc(dnode), "%s starts as '%s': not compared with %s(%s)" % (vname, render(si)[:60], gname, xname))
+    chk.floor("D9", "running end-point pairs", n, 1)
+
+
+def _d10(chk, fb, files):
+    """compound distributions add up contributions: a rebuild that walks several component distributions (a loop over a member
+    container of distributions with an inner loop over the classes of one component) and writes distribution_[value] with a
+    term weighted by the component's probability must accumulate ('+=' or 'x = x + ...'): two components may carry the same
+    class value, and a plain assignment keeps only the last contribution, so the probabilities no longer sum to one"""
+    n = 0
+    for f in fb.concrete_fns():
+        if f.body is None or not any(f.file.endswith(x) for x in files) or not f.cls:
+            continue
+        comp = [fl["name"] for fl in fb.classes.get(f.cls, {}).get("fields", []) if "vector" in fl["ty"] and "DiscreteDistribution" in fl["ty"]]
+        if not comp:
+            continue
+        for w in f.all_nodes():
+            if w["k"] not in ("BinaryOperator", "CompoundAssignOperator") or w.get("op") not in ("=", "+="):
+                continue
+            l_ = strip(kids(w)[0])
+            if not (is_call(l_) and l_["callee"]["name"] == "operator[]" and "obj" in l_ and render(f.obj(l_)).replace("this.", "") == "distribution_"):
+                continue
+            inner = f.enclosing(w, ("ForStmt", "WhileStmt", "CXXForRangeStmt"))
+            outer = f.enclosing(inner, ("ForStmt", "WhileStmt", "CXXForRangeStmt")) if inner is not None else None
+            if outer is None or not any(c_ in render(outer) for c_ in comp):
+                continue
+            rhs = strip(kids(w)[1])
+            if rhs["k"] in ("IntegerLiteral", "FloatingLiteral"):
+                continue        # the zero-filling pass
+            n += 1
+            con = "contributions-accumulate"
+            if w["op"] == "+=" or render(l_) in render(rhs):
+                chk.proved("D10", f.key, con, f.loc(w), "component contributions are accumulated into distribution_[%s]" % render(f.args(l_)[0]))
+            else:
+                chk.refuted("D10", f.key, con, f.loc(w),
+                            "inside the loop over the components '%s' overwrites the class probability instead of adding to it: when two components carry the same class value only the last contribution survives and the probabilities sum to less than one" % render(w)[:90],
+                            witness={"input": "a mixture of two identical component distributions with weights 0.5 / 0.5: every class value is shared"})
+    chk.floor("D10", "weighted contributions written by compound rebuilds", n, 1)
+
+
 def run(chk, fb, tier):
     chk.rule("D1", "fireParameterChanged of every parameterised family, setNumberOfCategories, setMedian and restrictToConstraint reach a rebuild after their last state write; compounds update every component first")
     chk.rule("D2", "members caching a parameter value (initialised from the same constructor argument as the Parameter) are reloaded by fireParameterChanged; members the constructor derives from a cache are re-derived there")
@@ -510,6 +638,10 @@ def run(chk, fb, tier):
     _d6(chk, fb, files)
     _d7(chk, fb)
     _d8(chk, fb, files)
+    chk.rule("D9", "a loop that carries a point and the value of a function at that point from interval to interval starts the value as the function of the starting point")
+    _d9(chk, fb, files)
+    chk.rule("D10", "a compound rebuild that walks its components accumulates their weighted class probabilities into distribution_[value] (never a plain assignment)")
+    _d10(chk, fb, files)
     from . import copyrule
     chk.rule("DC", "copy constructor and copy assignment copy the same members and agree on clone versus share for owning pointers; operator= empties a member container before re-populating it")
     copyrule.check(chk, fb, "DC", lambda c: any(c["file"].endswith(x) for x in files), floor=4)
